@@ -34,6 +34,7 @@ type Config struct {
 	Verbose       int
 	PkgPrefix     string // packages executed from source without question
 	Fix           map[string]uint64 // forced Choose values
+	Thorough      bool
 }
 
 type Exec struct {
@@ -148,6 +149,39 @@ func (ex *Exec) decide(st *State, c *Term) bool {
 
 func (ex *Exec) push(st *State) { ex.work = append(ex.work, st) }
 
+// concretizeBelow is concretize for a term known to be < n (an index): all feasible values are found with one
+// feasibility query per candidate and forked at once, which avoids extracting models from the solver.
+func (ex *Exec) concretizeBelow(st *State, t *Term, n uint64, what string) uint64 {
+	if t.IsConst() {
+		return t.c
+	}
+	if v, ok := st.concr[t.id]; ok {
+		return v
+	}
+	if n > 512 {
+		return ex.concretize(st, t, what)
+	}
+	var feas []uint64
+	for cand := uint64(0); cand < n; cand++ {
+		if ex.feasible(st, ex.tb.Eq(t, ex.tb.Const(cand, t.W()))) {
+			feas = append(feas, cand)
+		}
+	}
+	if len(feas) == 0 {
+		panic(cutPath{"concretize(" + what + "): no feasible value below the bound"})
+	}
+	for _, alt := range feas[1:] {
+		child := st.clone()
+		child.assume(ex.tb.Eq(t, ex.tb.Const(alt, t.W())))
+		child.concr[t.id] = alt
+		ex.push(child)
+		ex.forks++
+	}
+	st.assume(ex.tb.Eq(t, ex.tb.Const(feas[0], t.W())))
+	st.concr[t.id] = feas[0]
+	return feas[0]
+}
+
 // concretize returns a concrete value for t on this path, forking over alternatives.
 func (ex *Exec) concretize(st *State, t *Term, what string) uint64 {
 	if t.IsConst() {
@@ -156,22 +190,44 @@ func (ex *Exec) concretize(st *State, t *Term, what string) uint64 {
 	if v, ok := st.concr[t.id]; ok {
 		return v
 	}
-	n := 0
-	for k := range st.concr {
-		_ = k
-		n++
+	// cheap candidates first (lengths and counts are usually tiny): a feasibility query is much cheaper than
+	// extracting a model from the solver
+	var v uint64
+	found := false
+	excluded := map[uint64]bool{}
+	for _, p := range st.pc {
+		if p.op == ONot && p.args[0].op == OEq {
+			e := p.args[0]
+			if e.args[0] == t && e.args[1].IsConst() {
+				excluded[e.args[1].c] = true
+			} else if e.args[1] == t && e.args[0].IsConst() {
+				excluded[e.args[0].c] = true
+			}
+		}
 	}
-	conds := append([]*Term(nil), st.pc...)
-	r := ex.sol.Check(conds, ex.cfg.FeasTimeoutMs, true, t)
-	if r != RSat {
-		panic(cutPath{"concretize(" + what + "): path condition " + r.String()})
+	for cand := uint64(0); cand < 4 && !found; cand++ {
+		if excluded[cand] || (t.W() < 64 && cand > mask(t.W())) {
+			continue
+		}
+		if ex.feasible(st, ex.tb.Eq(t, ex.tb.Const(cand, t.W()))) {
+			v, found = cand, true
+		}
 	}
-	vals, err := ex.sol.GetValues([]*Term{t})
-	ex.sol.Pop()
-	if err != nil {
-		panic(cutPath{"concretize: " + err.Error()})
+	if !found {
+		conds := append([]*Term(nil), st.pc...)
+		r := ex.sol.Check(conds, ex.cfg.FeasTimeoutMs, true, t)
+		if r != RSat {
+			panic(cutPath{"concretize(" + what + "): path condition " + r.String()})
+		}
+		t0 := time.Now()
+		vals, err := ex.sol.GetValues([]*Term{t})
+		ex.logf(1, "get-value for concretize(%s) at %s: %v", what, st.where(), time.Since(t0))
+		ex.sol.Pop()
+		if err != nil {
+			panic(cutPath{"concretize: " + err.Error()})
+		}
+		v = vals[0]
 	}
-	v := vals[0]
 	cv := ex.tb.Const(v, t.W())
 	eq := ex.tb.Eq(t, cv)
 	// alternatives
@@ -737,6 +793,10 @@ func (ex *Exec) raise(st *State, p *PanicInfo) {
 	f := st.top()
 	f.recovered = false
 	f.mode = 2
+	// a panic raised inside a deferred call supersedes a recovery that call made for its parent
+	for i := len(st.frames) - 1; i > 0 && st.frames[i].isDefer; i-- {
+		st.frames[i-1].recovered = false
+	}
 }
 
 func (ex *Exec) raiseRuntime(st *State, kind, msg string, instr ssa.Instruction) {
